@@ -249,8 +249,10 @@ def dash_end_adjacent(d, pieces) -> bool:
     empty output statement): the text look-ahead `(start)(?P<rstrip>-?)` reads the delimiter's own '-' as
     white-space control.  Such a delimiter collides with the '-' syntax itself; only empty markup (a syntax
     error anyway) is affected.  Kept out of the streams, stated in ASSUMPTIONS."""
-    te, se = d[1], d[3]
+    te, se, ce = d[1], d[3], d[5]
     for p in pieces:
+        if p[0] == "sc" and ce.startswith("-") and not p[1] and not p[2]:
+            return True
         if p[0] == "out" and se.startswith("-") and not p[1] and not (p[2] + p[3] + p[4]) and not p[5]:
             return True
         if p[0] == "tag" and te.startswith("-") and not p[1] and not (p[2] + p[3] + p[4] + p[5] + p[6]) and not p[7]:
